@@ -146,7 +146,7 @@ def _run_task(i):
     from . import replay
     nreplayed = 0
     for ob in r.obligs:
-        if getattr(task, "keep", None) is not None and not task.keep(ob.name):
+        if getattr(task, "keep", None) is not None and not task.keep(ob.name) and not ob.name.endswith("#ensures:typeinv"):
             continue
         res = solve.solve_one(ob, ctx.timeout_ms, external=True, all_solvers=(ctx.tier == "thorough"))
         d = res.asdict()
